@@ -343,6 +343,8 @@ def rexpr(e) -> str:
         if fn is None:
             raise Extract(f"math.{e.func.attr} outside the arc subset")
         return f"(.{fn} {rexpr(e.args[0])})"
+    if isinstance(e, ast.Call) and isinstance(e.func, ast.Name) and e.func.id == "min" and len(e.args) == 2 and not e.keywords:
+        return f"(.min {rexpr(e.args[0])} {rexpr(e.args[1])})"
     raise Extract(f"expression outside the arc subset: {_u(e)}")
 
 
